@@ -201,6 +201,9 @@ func (d *Decoder) ReadData() (interface{}, error) {
 		return d.readString(int32(tag))
 	case dateTag(tag):
 		return d.readDate(int32(tag))
+	case tag == _binaryChunkLegacy && len(d.clsDefList) > int(_binaryChunkLegacy-_objectLenTagMin):
+		// x62 is an instance of class definition #2 once that definition exists
+		return d.ReadLenTagObject(tag)
 	case binaryTag(tag):
 		return d.readBinary(int32(tag))
 	case refTag(tag):
